@@ -12,14 +12,22 @@ package main
 import (
 	"fmt"
 	"math"
+	"os"
 	"reflect"
 	"strconv"
 
 	"github.com/kaptinlin/gozod"
 	"github.com/kaptinlin/gozod/pkg/validate"
+
+	"verifharness/hx"
 )
 
-func init() { props["c16"] = runC16 }
+func main() {
+	if err := runC16(hx.ParseFlags()); err != nil {
+		fmt.Fprintln(os.Stderr, "harness error:", err)
+		os.Exit(3)
+	}
+}
 
 type numKind struct {
 	name   string
@@ -171,13 +179,6 @@ func directCmp(op string, a, b any) bool {
 	}
 }
 
-func b01(b bool) string {
-	if b {
-		return "1"
-	}
-	return "0"
-}
-
 // numeric schema constructors, value and pointer variants, by kind name.
 var numSchemas = map[string][]func() any{
 	"i8":   {func() any { return gozod.Int8() }, func() any { return gozod.Int8Ptr() }},
@@ -203,7 +204,7 @@ var signMethods = map[string]string{"lt": "Negative", "lte": "NonPositive", "gt"
 // schemaVerdict attaches `method(bound)` to a fresh schema of v's kind (variant 0 = value
 // constructor, 1 = pointer constructor) and reports whether Parse accepts v.
 func schemaVerdict(v numVal, variant int, method string, bound any, ptrInput bool) (accepted bool, panicMsg string) {
-	panicMsg = safely(func() {
+	panicMsg = hx.Safely(func() {
 		s := reflect.ValueOf(numSchemas[v.k.name][variant]())
 		m := s.MethodByName(method)
 		var args []reflect.Value
@@ -223,13 +224,13 @@ func schemaVerdict(v numVal, variant int, method string, bound any, ptrInput boo
 	return
 }
 
-func runC16(c config) error {
-	o, err := newOut(c.outDir)
+func runC16(c hx.Config) error {
+	o, err := hx.NewOut(c.OutDir)
 	if err != nil {
 		return err
 	}
-	r := newRng(c.seed)
-	thorough := c.tier == "thorough"
+	r := hx.NewRng(c.Seed)
+	thorough := c.Thorough()
 	all := append(append([]numKind{}, intKinds...), floatKinds...)
 	grids := map[string][]numVal{}
 	for _, k := range all {
@@ -239,14 +240,14 @@ func runC16(c config) error {
 	f64 := floatKinds[1]
 
 	emitCmp := func(op string, a, b numVal, how string, verdict bool) {
-		o.emit(fmt.Sprintf("c16 cmp %s %s %s #%s", op, a.token(), b.token(), how), b01(verdict))
-		o.count("cmp:" + how[:1] + ":" + a.k.name + ":" + b.k.name)
-		o.count("verdict:" + b01(verdict))
+		o.Emit(fmt.Sprintf("c16 cmp %s %s %s #%s", op, a.token(), b.token(), how), hx.B01(verdict))
+		o.Count("cmp:" + how[:1] + ":" + a.k.name + ":" + b.k.name)
+		o.Count("verdict:" + hx.B01(verdict))
 	}
 	emitMul := func(a, b numVal, how string, verdict bool) {
-		o.emit(fmt.Sprintf("c16 mul %s %s #%s", a.token(), b.token(), how), b01(verdict))
-		o.count("mul:" + how[:1] + ":" + a.k.name + ":" + b.k.name)
-		o.count("verdict:" + b01(verdict))
+		o.Emit(fmt.Sprintf("c16 mul %s %s #%s", a.token(), b.token(), how), hx.B01(verdict))
+		o.Count("mul:" + how[:1] + ":" + a.k.name + ":" + b.k.name)
+		o.Count("verdict:" + hx.B01(verdict))
 	}
 
 	// (1) exhaustive 8-bit inputs × every int64 bound in [-130, 260], all four operators, directly.
@@ -296,15 +297,15 @@ func runC16(c config) error {
 		n2 = 3000000
 	}
 	for i := 0; i < n2; i++ {
-		ka, kb := pick(r, all), pick(r, all)
-		a, b := pick(r, grids[ka.name]), pick(r, grids[kb.name])
+		ka, kb := hx.Pick(r, all), hx.Pick(r, all)
+		a, b := hx.Pick(r, grids[ka.name]), hx.Pick(r, grids[kb.name])
 		// concentrate on neighbours: with some probability take b next to a
-		if !ka.float && !kb.float && r.chance(30) {
+		if !ka.float && !kb.float && r.Chance(30) {
 			b = neighbourInt(r, a, kb)
 		}
-		op := pick(r, cmpOps)
+		op := hx.Pick(r, cmpOps)
 		emitCmp(op, a, b, "direct", directCmp(op, a.goValue(), b.goValue()))
-		if !ka.float && !kb.float && r.chance(40) {
+		if !ka.float && !kb.float && r.Chance(40) {
 			emitMul(a, b, "direct", validate.MultipleOf(a.goValue(), b.goValue()))
 		}
 	}
@@ -314,65 +315,65 @@ func runC16(c config) error {
 		n3 = 600000
 	}
 	for i := 0; i < n3; i++ {
-		k := pick(r, all)
-		a := pick(r, grids[k.name])
-		variant := r.intn(2)
-		ptrIn := r.chance(30)
-		op := pick(r, cmpOps)
+		k := hx.Pick(r, all)
+		a := hx.Pick(r, grids[k.name])
+		variant := r.Intn(2)
+		ptrIn := r.Chance(30)
+		op := hx.Pick(r, cmpOps)
 		var b numVal
 		if k.float {
-			b = pick(r, grids["f64"])
+			b = hx.Pick(r, grids["f64"])
 			b.k = f64
 			if math.IsNaN(b.f) {
 				continue // a NaN bound is a configuration the statement does not speak about
 			}
 		} else {
-			b = pick(r, grids["i64"])
-			if r.chance(40) {
+			b = hx.Pick(r, grids["i64"])
+			if r.Chance(40) {
 				b = neighbourInt(r, a, i64)
 			}
 		}
 		how := fmt.Sprintf("schema:%d:%v:", variant, ptrIn)
-		if r.chance(15) {
+		if r.Chance(15) {
 			// sign shorthand: bound is the untyped constant 0 (an int)
 			zero := numVal{k: intKinds[4], i: 0}
 			m := signMethods[op]
 			acc, pm := schemaVerdict(a, variant, m, nil, ptrIn)
 			if pm != "" {
-				o.emit(fmt.Sprintf("c16 cmp %s %s %s #%s", op, a.token(), zero.token(), how+m), "panic "+pm)
+				o.Emit(fmt.Sprintf("c16 cmp %s %s %s #%s", op, a.token(), zero.token(), how+m), "panic "+pm)
 				continue
 			}
 			emitCmp(op, a, zero, how+m, acc)
 			continue
 		}
-		m := pick(r, opMethods[op])
+		m := hx.Pick(r, opMethods[op])
 		var bound any = b.goValue()
 		acc, pm := schemaVerdict(a, variant, m, bound, ptrIn)
 		if pm != "" {
-			o.emit(fmt.Sprintf("c16 cmp %s %s %s #%s", op, a.token(), b.token(), how+m), "panic "+pm)
+			o.Emit(fmt.Sprintf("c16 cmp %s %s %s #%s", op, a.token(), b.token(), how+m), "panic "+pm)
 			continue
 		}
 		emitCmp(op, a, b, how+m, acc)
-		if !k.float && r.chance(40) {
-			d := pick(r, grids["i64"])
-			if r.chance(50) {
-				d = numVal{k: i64, i: int64(r.intn(41) - 20)}
+		if !k.float && r.Chance(40) {
+			d := hx.Pick(r, grids["i64"])
+			if r.Chance(50) {
+				d = numVal{k: i64, i: int64(r.Intn(41) - 20)}
 			}
-			mm := pick(r, []string{"MultipleOf", "Step"})
+			mm := hx.Pick(r, []string{"MultipleOf", "Step"})
 			acc, pm := schemaVerdict(a, variant, mm, d.goValue(), ptrIn)
 			if pm != "" {
-				o.emit(fmt.Sprintf("c16 mul %s %s #%s", a.token(), d.token(), how+mm), "panic "+pm)
+				o.Emit(fmt.Sprintf("c16 mul %s %s #%s", a.token(), d.token(), how+mm), "panic "+pm)
 				continue
 			}
 			emitMul(a, d, how+mm, acc)
 		}
 	}
-	return o.close(map[string]any{"seed": c.seed, "tier": c.tier})
+	return o.Close(map[string]any{"seed": c.Seed, "tier": c.Tier})
 }
 
 // neighbourInt returns a value of kind kb at distance ≤ 1 from a (when representable).
-func neighbourInt(r *rng, a numVal, kb numKind) numVal {
-	d := int64(r.intn(3) - 1)
+func neighbourInt(r *hx.Rng, a numVal, kb numKind) numVal {
+	d := int64(r.Intn(3) - 1)
 	if a.k.signed {
 		x := a.i
 		if (d > 0 && x == math.MaxInt64) || (d < 0 && x == math.MinInt64) {
